@@ -317,11 +317,13 @@ theorem ps_doRegister (st : St) (k : Int) (reg : St → St × Nat) (h : ∀ s, P
     · exact (h st).trans (ps_with_slots _ _)
 
 
+theorem ps_with_cancelReq (st : St) (l : List Int) : PStep st { st with cancelReq := l } := PStep.of_eq rfl rfl
+
 theorem ps_doCancel (st : St) (k : Int) : PStep st (doCancel st k) := by
   unfold doCancel
   split
   · exact (ps_emit _ _)
-  · exact ps_watchCancel _ _
+  · exact (ps_with_cancelReq _ _).trans (ps_watchCancel _ _)
 
 
 theorem ps_runAct (st : St) (act : Act) : PStep st (runAct st act) := by
